@@ -95,7 +95,9 @@ def r1_vocabulary(ctx):
                 ok = [A.ev(val.args[0], {'i': k}) for k in (0, 8, 9, 41)] == ['01', '09', '10', '42']
             except (A.NotClosed, TypeError, ValueError):
                 ok = False
-        elif v == 'comp_data[j].get_value()':
+        elif v == 'comp_data[j].get_value()' or (re.match(r'^(\w+)\[j\]\.get_value\(\)$', v) and any(
+                isinstance(s_, ast.Assign) and path_of(s_.targets[0]) == v.split('[')[0] and isinstance(s_.value, ast.Call)
+                and A.call_target(s_.value) == ('seg_data', 'get') for s_ in ast.walk(seg))):
             ok = True
         yield Ob('x12xml_simple:x12xml_simple.seg value written is the one at the node position [%s]' % v, ok, ctx.floc(seg, c),
                  '' if ok else 'value expression %s does not address position i / component j' % v)
